@@ -57,6 +57,9 @@ fn main() {
             eprintln!("[zv] panic: {info}");
         }
     }));
+    if !["info", "idl", "idl-rerender", "transport"].contains(&cmd) {
+        util::start_watchdog(out.clone(), 30);
+    }
     match cmd {
         "info" => {
             println!("{}", json!({"B": buffer_step(), "MAXB": buffer_max()}));
@@ -87,6 +90,7 @@ fn main() {
                 if let Some(w) = dumpw.as_mut() {
                     use std::io::Write;
                     writeln!(w, "{}", json!({"family":"jsonser","v":t})).unwrap();
+                    std::io::Write::flush(w).unwrap();
                 }
                 jsonser::tree_case(t, &mut stats);
             }
@@ -131,6 +135,7 @@ fn main() {
                 if let Some(w) = dumpw.as_mut() {
                     use std::io::Write;
                     writeln!(w, "{}", sc.to_json()).unwrap();
+                    std::io::Write::flush(w).unwrap();
                 }
                 run(sc, &mut stats);
             }
@@ -164,6 +169,7 @@ fn main() {
                 if let Some(w) = dumpw.as_mut() {
                     use std::io::Write;
                     writeln!(w, "{}", sc.to_json()).unwrap();
+                    std::io::Write::flush(w).unwrap();
                 }
                 run(sc, &mut stats);
             }
@@ -203,6 +209,7 @@ fn main() {
                 if let Some(w) = dumpw.as_mut() {
                     use std::io::Write;
                     writeln!(w, "{}", serde_json::to_string(sc).unwrap()).unwrap();
+                    std::io::Write::flush(w).unwrap();
                 }
                 session::run(sc, &mut stats);
             }
@@ -307,6 +314,7 @@ fn cmd_framing(args: &[String], seed: u64, n: u64, out: &str, summary: &str) {
         if let Some(w) = dumpw.as_mut() {
             use std::io::Write;
             writeln!(w, "{}", sc.to_json()).unwrap();
+                    std::io::Write::flush(w).unwrap();
         }
         run_named(sc, &mut stats);
     }
@@ -353,6 +361,7 @@ fn cmd_writing(args: &[String], seed: u64, n: u64, out: &str, summary: &str) {
         if let Some(w) = dumpw.as_mut() {
             use std::io::Write;
             writeln!(w, "{}", sc.to_json()).unwrap();
+                    std::io::Write::flush(w).unwrap();
         }
         run(sc, &mut stats);
     }
@@ -395,6 +404,7 @@ fn cmd_chain(args: &[String], seed: u64, n: u64, out: &str, summary: &str) {
         if let Some(w) = dumpw.as_mut() {
             use std::io::Write;
             writeln!(w, "{}", sc.to_json()).unwrap();
+                    std::io::Write::flush(w).unwrap();
         }
         run(sc, &mut stats);
     }
@@ -442,6 +452,7 @@ fn cmd_server(args: &[String], seed: u64, n: u64, out: &str, summary: &str) {
         if let Some(w) = dumpw.as_mut() {
             use std::io::Write;
             writeln!(w, "{}", sc.to_json()).unwrap();
+                    std::io::Write::flush(w).unwrap();
         }
         run(sc, &mut stats);
     }
